@@ -97,6 +97,11 @@ func (f *flowSpec) Call(x *gea.Exec, st *gea.State, call *ast.CallExpr, env *gea
 			if len(call.Args) >= 2 {
 				return one(x.Effect(st, "MAKE", call.Pos(), map[string]string{"size": x.ValueName(st, call.Args[1], env)}))
 			}
+		case "copy":
+			if len(call.Args) == 2 {
+				// copy changes the contents of dst, not what the variables involved refer to
+				return one(x.Effect(st, "COPY", call.Pos(), map[string]string{"dst": x.ValueName(st, call.Args[0], env), "src": x.ValueName(st, call.Args[1], env)}))
+			}
 		}
 		return nil, false
 	}
